@@ -181,7 +181,12 @@ class ArrEvaluator(Evaluator):
                 return ArrV(f"fresh", None, "data", init=name)
             if name in ("ones_like", "zeros_like"):
                 return ArrV("fresh", None, "data", init=name.split("_")[0])
-            if name == "concatenate" and e.args and isinstance(e.args[0], (ast.List, ast.Tuple)):
+            if name in ("where", "nonzero", "flatnonzero") and len(e.args) == 1 and not e.keywords:
+                # the positions where a row mask holds select what the mask selects: x[where(m)[0]] is x[m]
+                m_ = self._try(e.args[0], env, ctx)
+                if isinstance(m_, SelV):
+                    return m_ if name == "flatnonzero" else (m_,)
+            if name in ("concatenate", "hstack") and e.args and isinstance(e.args[0], (ast.List, ast.Tuple)):
                 parts = [self.ev(x, env, ctx) for x in e.args[0].elts]
                 if all(isinstance(p, ArrV) for p in parts):
                     return ArrV("concat(" + ",".join(p.name() for p in parts) + ")", None, "data")
